@@ -6,6 +6,7 @@ import copy
 import json
 import os
 import random
+import re
 import shutil
 
 ID = "C19"
@@ -184,8 +185,14 @@ def bounded_renderings_and_orders(tier, seed):
                         a, b = ref[sect].get(k), m[sect].get(k)
                         if a == b:
                             continue
+                        base_k = re.sub(r"(_|\d+)$", "", k)
+                        siblings = [x for x in set(ref[sect]) | set(m[sect]) if x != k and re.sub(r"(_|\d+)$", "", x) == base_k]
                         if sect == "models" and a is not None and b is not None and (not a or not b) and k in cyc:
                             what = "all-fields-lost-on-reference-cycle"
+                        elif sect == "models" and a is not None and b is not None and _strip_suffixes(a) == _strip_suffixes(b) and _underscored(a, b):
+                            what = "numbered-sibling-swap"  # the same fields up to WHICH of X_ / X2 a referrer is typed with (X_ : a class name that had to be escaped)
+                        elif sect == "models" and (a is None or b is None) and (k.endswith("_") or any(x.endswith("_") for x in siblings)):
+                            what = "numbered-sibling-swap"  # X_ and X2 exist in one order, only one of them (or X2 and X3) in the other
                         elif a is None or b is None:
                             what = "missing"
                         else:
@@ -198,6 +205,18 @@ def bounded_renderings_and_orders(tier, seed):
                         "properties / responses: normalised manifests (models+fields, operations+signatures) must be equal", "backend": "bounded",
             "bound": f"{len(docs)} corpus documents x (4 renderings + full reversal + {2 if tier == 'quick' else 5} random permutations, seed {seed}; permutations skipped for documents with name collisions)", "evaluations": n,
             "distinct_nontrivial": n, "exhaustive": False, "failures": failures}
+
+
+def _strip_suffixes(fields):
+    """field list with the numeric / underscore suffixes of class names removed (Id_, Id2, Id3 -> Id)"""
+    return sorted(re.sub(r"\b([A-Z][A-Za-z0-9]*?)(?:_|\d+)\b", r"\1", f) for f in fields)
+
+
+def _underscored(a, b):
+    """the two field lists differ only in class names one of which is an escaped name (ends with an underscore: Id_, Type_, Class_)"""
+    ta = set(re.findall(r"\b[A-Z][A-Za-z0-9]*_?(?![A-Za-z0-9_])", " ".join(a)))
+    tb = set(re.findall(r"\b[A-Z][A-Za-z0-9]*_?(?![A-Za-z0-9_])", " ".join(b)))
+    return any(t.endswith("_") for t in ta ^ tb)
 
 
 def _has_collisions(name):
@@ -271,4 +290,25 @@ def _witness_order(k):
     return fields({"User": user, "UserGroup": group}) != fields({"UserGroup": group, "User": user})
 
 
-WITNESS = {"F-C19-cycle-order-dependent-fields": _witness_order}
+def _witness_duplicate_registration(k):
+    """{Id: string, Rec: {id: $ref Id}}: Rec.id is typed Id2 in one order of components.schemas and Id_ in the other (Id is registered and emitted twice)"""
+    import shutil
+    from props import gen_harness as G
+    S = "#/components/schemas/"
+    sch = {"Id": {"type": "string"}, "Rec": {"type": "object", "required": ["id"], "properties": {"id": {"$ref": S + "Id"}}}}
+
+    def man(order):
+        d = {"openapi": "3.0.3", "info": {"title": "w", "version": "1"}, "paths": {"/r": {"get": {"operationId": "getR", "tags": ["r"], "responses": {
+            "200": {"description": "o", "content": {"application/json": {"schema": {"$ref": S + "Rec"}}}}}}}}, "components": {"schemas": {n_: sch[n_] for n_ in order}}}
+        root = G.scratch("c19w")
+        try:
+            if G.generate(d, root, "cli") is not None:
+                return None
+            return manifest(root, "cli")["models"]
+        finally:
+            shutil.rmtree(root, ignore_errors=True)
+    a, b = man(["Id", "Rec"]), man(["Rec", "Id"])
+    return a is not None and b is not None and a != b
+
+
+WITNESS = {"F-C19-cycle-order-dependent-fields": _witness_order, "F-C19-duplicate-registration-order": _witness_duplicate_registration}
